@@ -273,6 +273,21 @@ type rctx struct {
 	Modified bool
 	// Resumed: a start was accepted since the current batch started
 	Resumed bool
+	// callback bookkeeping of module-owned contexts (C08: "a registered module callback fires
+	// exactly once per batch, with the outputs if and only if the response threshold was met")
+	cbBatches  map[uint64]*cbBatch
+	cbUnknown  bool // a batch of this context was not seen from its start
+	cbClosed   bool
+	lastLoaded []string
+}
+
+// cbBatch is one batch of a module-owned context, seen from the block that issued it.
+type cbBatch struct {
+	N    uint64
+	Exp  int64
+	Thr  uint32 // the batch's response threshold, read in the block that issued it
+	Reqs []string
+	Done bool
 }
 
 const (
@@ -296,6 +311,7 @@ type request struct {
 	State    int
 	DoneAt   int64
 	Index    int
+	Output   string // the output document of the accepted answer ("" = a failure report)
 }
 
 // Request is the exported view of a request (API for modules built on this one).
